@@ -19,9 +19,9 @@ RULE = ("C01 generator (succeeding and failing pipelines, every parameter placem
         "context) x detail levels x host TZ in {UTC, +09:00, -08:00, +05:45} (time.tzset in-process; thorough also fresh "
         "subprocesses); distinct = hash of (nodes, ctx, data, detail, tz); non-trivial = >= 2 SERs compared and at least one "
         "parameter resolved from context or default")
-SHARDS = {"quick": 8, "thorough": 16}
+SHARDS = {"quick": 8, "thorough": 48}
 SHARD_TIMEOUT = {"quick": 600, "thorough": 3000}
-N_CASES = {"quick": 120, "thorough": 250}   # per shard; each case runs under 4 TZ settings
+N_CASES = {"quick": 120, "thorough": 90}   # per shard; each case runs under 4 TZ settings
 TZS = ["UTC", "<+09>-9", "<-08>8", "<+0545>-5:45"]
 DETAILS = ["all", "hash", "repr", "context", "hash,context"]
 RFC3339 = re.compile(r"^(\d{4})-(\d\d)-(\d\d)T(\d\d):(\d\d):(\d\d)(\.\d+)?(Z|[+-]\d\d:\d\d)$")
